@@ -6,12 +6,24 @@ S: Sync.tla - the mechanism of pkg/server/sync.go, one action per lower-layer ca
    action property RowDeletedOnlyAfterDestAck; liveness under weak fairness, no state constraint:
    acked(b) ~> b in dst.  Sensitivity: each of the deviations DeleteRowBeforeWrite, NoQueueReload,
    EnqueueBeforeSourceAccept must violate (invariant, action property and liveness variants).
+   SyncPool.tla - the pass structure of the copy loop on top of Sync (runSync's snapshot, non-blocking feed into the
+   bounded work channel, at most Pool workers, bounded result channel drained only after the feed): a refinement of
+   Sync (RefinesSync), same invariants, and Delivered checked again because a copy starts only in a worker's
+   hands.  Sensitivity BlockingFeedSmallChannel (work channel of Pool slots + blocking feed) must violate Delivered
+   with the loop stuck in the feed.
 G: SyncGen.tla enumerates scenarios (upload history up to renaming, cuts into handler incarnations, outcome of
    the k-th destination write / source read per incarnation, pool size, concurrent uploads); the driver creates
    the real handler through blobserver.CreateHandler("sync") over a gate source (uploads through
    blobserver.Receive), a gate destination (memory gate store; a real index.Index over a gate KV in the second
    configuration) and a shared gate queue KV, and expands every "sweep" incarnation into one run per
    lower-layer call k with the process dying at call k (FreezeAt), restarting over the same queue.
+   Burst family (SyncGen BInit / SyncGenBurst.cfg): 19, 20, 30, 60, 100 distinct blobs become pending at once - uploaded
+   while every destination write fails, or while the first destination write of the pass in progress is stalled,
+   or left as queue rows by a killed incarnation (restart over that many rows, with a healthy / failing
+   destination), or half and half - for copier pools 1, 2, 5, uploads sequential or concurrent; then the
+   destination heals and every acknowledged blob must be delivered at the same bounded horizon.  These runs (and
+   seeded random members of the family: other sizes, cuts, hold outcomes, crash points) are validated by the same
+   Trace_Sync with Blobs = 1..120 (MC_TraceSyncBurst).
 T: Trace_Sync.tla validates the recorded lower-layer events of every run against Sync's actions (silent steps
    for the memory-only actions, TLC searches), including the bounded-horizon observation that every acknowledged
    blob is at the destination byte for byte after healing; seeded random scenarios go through the same
@@ -67,12 +79,20 @@ def classify(ctx, seg, idx, reason, leg):
     ctx.discrepancy(sig, what[:900], {"property": "C19", "leg": leg, "scn": scn, "segment": seg[:idx + 1][-80:], "line": idx, "reason": reason})
 
 
-def validate(ctx, evs, leg, pool=None):
+BURST_MODULE, BURST_CHUNK, STD_BLOBS = "MC_TraceSyncBurst", 9000, 40
+
+
+def module_for(evs):
+    """Trace_Sync with Blobs = 1..40, or 1..120 for runs of the burst family (a state is three times as big)."""
+    return BURST_MODULE if any(isinstance(e.get("b"), int) and e["b"] > STD_BLOBS for e in evs) else "MC_TraceSync"
+
+
+def validate(ctx, evs, leg, pool=None, module="MC_TraceSync", chunk=CHUNK):
     """Chunk the trace at segment boundaries and validate the chunks in parallel (one linear TLC pass each)."""
     segs = segments(evs)
     chunks, cur = [], []
     for s in segs:
-        if cur and len(cur) + len(s) > CHUNK:
+        if cur and len(cur) + len(s) > chunk:
             chunks.append(cur)
             cur = []
         cur = cur + s
@@ -80,7 +100,7 @@ def validate(ctx, evs, leg, pool=None):
         chunks.append(cur)
 
     def one(ch):
-        return ctx.tlc_trace_segments("MC_TraceSync", "Trace_Sync.cfg", ch, is_reset, timeout=900)
+        return ctx.tlc_trace_segments(module, "Trace_Sync.cfg", ch, is_reset, timeout=900)
     if pool is None:
         with ThreadPoolExecutor(max_workers=8) as ex:
             res = list(ex.map(one, chunks))
@@ -114,10 +134,22 @@ def drive(ctx, drv, args, tag, seed=None):
                  "expired": int(m.group(5))}
 
 
-def measure(ctx, evs):
+def measure(ctx, evs, burst=False):
     """Distinct non-trivial cases actually exercised, measured on the recorded traces."""
     for seg in segments(evs):
         cfg = seg[0].get("res")
+        if burst:
+            # largest number of blobs pending (acknowledged, not yet written to the destination) at a heal / start mark
+            pend, most = set(), 0
+            for e in seg:
+                if e.get("ev") == "ack" and e.get("res") == "ok":
+                    pend.add(e["b"])
+                elif e.get("ev") == "recv" and e.get("res") in ("ok", "after", "wrongsize"):
+                    pend.discard(e["b"])
+                elif e.get("ev") in ("heal", "find"):
+                    most = max(most, len(pend))
+            ctx.distinct("%s|burst|pool=%s|pending-at-heal-or-restart=%d" % (cfg, seg[0].get("scn", {}).get("pool"), most))
+            continue
         for i, e in enumerate(seg):
             if e.get("ev") == "crash":
                 p = seg[i - 1]
@@ -209,6 +241,47 @@ def negative_samples(ctx, evs):
     ctx.count("T", negative_samples_rejected=len(bad))
 
 
+def negative_burst(ctx, evs):
+    """Corrupted copies of real burst runs must be rejected by the 120-blob instance as well: the observation at the
+    horizon binds for the blobs beyond one pass of the copier, and a row may not go before its destination write."""
+    bad = []
+    for seg in segments(evs):
+        if any(e.get("ev") == "crash" for e in seg) or seg[0].get("scn", {}).get("n", 0) < 19:
+            continue
+        acked = [e["b"] for e in seg if e["ev"] == "ack" and e["res"] == "ok"]
+        s = [dict(e) for e in seg]
+        f = next((i for i, e in enumerate(s) if e["ev"] == "final" and acked and e["b"] == acked[-1]), None)
+        if f is None:
+            continue
+        s[f]["res"] = "undelivered"
+        s[0] = dict(s[0], neg="burst-final-flipped")
+        bad.append(s)
+        s = [dict(e) for e in seg]
+        r = max((i for i, e in enumerate(s) if e["ev"] == "recv" and e["res"] == "ok"), default=None)
+        if r is not None:
+            s.pop(r)
+            s[0] = dict(s[0], neg="burst-del-without-recv")
+            bad.append(s)
+        s = [dict(e) for e in seg]
+        hl = next((i for i, e in enumerate(s) if e["ev"] == "heal"), None)
+        r = next((i for i, e in enumerate(s) if hl is not None and i > hl and e["ev"] == "recv" and e["res"] == "ok"), None)
+        if r is not None:
+            s[r]["res"] = "error"          # a destination failure after the heal mark, and the row goes all the same
+            s[0] = dict(s[0], neg="burst-fault-after-heal")
+            bad.append(s)
+        break
+    if len(bad) < 3:
+        raise vlib.MachineryError("negative burst samples: no suitable real run found (%d)" % len(bad))
+    for k, sgm in enumerate(bad):          # copies of one run: each is a run of its own (the look-ahead stays inside a run)
+        for e in sgm:
+            e["sg"] = -1 - k
+    fails = ctx.tlc_trace_segments(BURST_MODULE, "Trace_Sync.cfg", [e for s in bad for e in s], is_reset)
+    missing = set(s[0]["neg"] for s in bad) - set(f[0][0].get("neg") for f in fails)
+    if missing:
+        raise vlib.MachineryError("negative burst samples accepted by Trace_Sync (the trace spec does not bind): %s" % sorted(missing))
+    ctx.count("T", negative_samples_rejected=len(bad))
+
+
 # (init, inv, length, cinit, expected): proof obligations of the inductive argument on MC_SyncInd, then must-fail runs
 APALACHE = [("Init", "IndInv", 0, "ConstInit", "ok"),                 # base:  Init => IndInv
             ("IndInit", "IndInv", 1, "ConstInit", "ok"),              # step:  IndInv /\ Next => IndInv'
@@ -248,15 +321,23 @@ def leg_s(ctx, quick):
     for dev, inv in DEVIATIONS:
         jobs.append(("Sync", "Sync_inv.cfg", {"Deviations": '{"%s"}' % dev}, inv, 2))
     jobs.append(("Sync", "Sync_act.cfg", {"Deviations": '{"DeleteRowBeforeWrite"}'}, "RowDeletedOnlyAfterDestAck", 2))
+    # the pass / pool structure of the copy loop: refinement of Sync, invariants, liveness (WorkCap < |Blobs|: the
+    # non-blocking feed leaves part of the batch for the next pass)
+    jobs.append(("SyncPool", "SyncPool.cfg", None, None, 4))
     if not quick:
         jobs.append(("Sync", "Sync.cfg", {"Blobs": "{1, 2, 3}", "MaxCrashes": 2}, None, 8))
         jobs.append(("Sync", "Sync_safety.cfg", {"Blobs": "{1, 2, 3, 4}"}, None, 8))
+        jobs.append(("SyncPool", "SyncPool.cfg", {"Pool": 2, "WorkCap": 2, "ResCap": 1, "MaxCrashes": 2}, None, 8))
+        # the constants of the sensitivity run without the deviation (3 blobs, 1 worker, unbuffered results): Delivered holds
+        jobs.append(("SyncPool", "SyncPool_live.cfg", {"Deviations": "{}"}, None, 8))
     for _, cfg, ov, _, _ in jobs:
         ctx._cfg(cfg, ov)          # derive the cfg files before the threads start
 
     def one(j):
         mod, cfg, ov, exp, w = j
-        return ctx.tlc_check(mod, cfg, overrides=ov, workers=w, expect_violation=exp, timeout=1500, coverage=(not quick and exp is None))
+        # SyncPool_live.cfg has an unbuffered result channel (ResCap = 0): its buffered-send actions are never enabled by design
+        cov = not quick and exp is None and cfg != "SyncPool_live.cfg"
+        return ctx.tlc_check(mod, cfg, overrides=ov, workers=w, expect_violation=exp, timeout=1500, coverage=cov)
 
     def live(dev):
         # vlib does not recognise TLC's wording of a liveness violation: run it directly
@@ -266,11 +347,28 @@ def leg_s(ctx, quick):
             raise vlib.MachineryError("sensitivity: Sync_live.cfg with %s did not violate Delivered:\n%s" % (dev, r["out"][-1500:]))
         ctx.count("S", runs=1, liveness_sensitivity=1)
         ctx.log("S Sync/Sync_live.cfg {%s}: Delivered violated as expected (%.1fs)" % (dev, r["wall"]))
+    def live_pool():
+        # The violation lies ~20 steps deep in a large state space; TLC checks liveness on the partial state graph at
+        # its progress interval (60 s by default): make that 3 s instead of exploring the whole graph first.
+        r = ctx._tlc("SyncPool", "SyncPool_live.cfg", ["-workers", "2"], 900,
+                     env={"JAVA_TOOL_OPTIONS": "-Dtlc2.TLC.progressInterval=3 -XX:ParallelGCThreads=2"})
+        out = r["out"]
+        if "Temporal property Delivered was violated" not in out:
+            raise vlib.MachineryError("sensitivity: SyncPool_live.cfg (BlockingFeedSmallChannel) did not violate Delivered:\n%s" % out[-1500:])
+        end = max(out.rfind("Stuttering"), out.rfind("Back to state"))    # "State n: <action> ... State n+1: Stuttering"
+        j = out.rfind("State ", 0, end) if end >= 0 else -1
+        i = out.rfind("State ", 0, j) if j > 0 else -1
+        st = out[i:j] if i >= 0 else ""
+        if 'pc = "feed"' not in st or "batch = {}" in st:
+            raise vlib.MachineryError("sensitivity: BlockingFeedSmallChannel violated Delivered, but not by a blocked feed:\n%s" % out[-2500:])
+        ctx.count("S", runs=1, liveness_sensitivity=1)
+        ctx.log("S SyncPool/SyncPool_live.cfg {BlockingFeedSmallChannel}: Delivered violated as expected, loop stuck in the feed (%.1fs)" % r["wall"])
     for dev in ("NoQueueReload", "DeleteRowBeforeWrite"):
         ctx._cfg("Sync_live.cfg", {"Deviations": '{"%s"}' % dev})
     ujobs = unbounded_jobs(ctx, quick)
     with ThreadPoolExecutor(max_workers=7) as ex:
         fs = [ex.submit(one, j) for j in jobs] + [ex.submit(live, d) for d in ("NoQueueReload", "DeleteRowBeforeWrite")]
+        fs.append(ex.submit(live_pool))
         fs += [ex.submit(u) for u in ujobs]
         rs = [f.result() for f in fs]
     for r in rs:
@@ -297,7 +395,7 @@ def run(ctx, replay):
         sf = ctx.path("replay.jsonl")
         vlib.write_jsonl(sf, variants)
         evs, st = drive(ctx, drv, ["-scn", sf, "-cfgs", "asis", "-par", "4"], "replay", seed=scn.get("seed"))
-        n, nf = validate(ctx, evs, "replay")
+        n, nf = validate(ctx, evs, "replay", module=module_for(evs))
         ctx.cov["traces_validated_against_impl"] += n
         ctx.cov["evaluations"] += len(evs)
         return
@@ -307,6 +405,11 @@ def run(ctx, replay):
         "MaxLen": 3 if quick else 4, "MaxRestarts": 2, "MaxFaults": 0})
     big = ctx.tlc_gen("SyncGen", "SyncGen.cfg", tag="SCN", overrides={
         "MaxLen": 3, "MaxRestarts": 1, "MaxFaults": 2, "Pools": "{1, 5}", "Pars": "{FALSE, TRUE}"})
+    # burst family: far more blobs pending at once than one pass of the copy loop holds in flight
+    bov = None if quick else {"BurstHolds": '{"error", "after", "wrongsize"}'}
+    burst = ctx.tlc_gen("SyncGen", "SyncGenBurst.cfg", tag="SCN", overrides=bov)
+    bsweep = [] if quick else ctx.tlc_gen("SyncGen", "SyncGenBurst.cfg", tag="SCN", overrides={
+        "BurstSizes": "{19, 20}", "CrashKinds": '{"sweep"}', "Pars": "{FALSE}", "BurstForms": '{"restart", "restart-stall", "split"}'})
     rng = random.Random(ctx.seed)
     sample = rng.sample(big, 160 if quick else 1500)
     fams = [("core", core, "both"), ("cuts", cuts, "mem"), ("sample", sample, "mem"),
@@ -322,17 +425,35 @@ def run(ctx, replay):
                {"ups": [], "par": False, "dst": d, "src": [], "crash": "none", "freeze": 0}]}
            for u in ([2, 1], [3, 1, 2], [4, 2, 1], [3, 4, 2, 1]) for pl in (1, 2) for d in ([], ["after"])]
     fams.append(("ooo-ix", ooo, "index"))
+    # quick: every (size, form) of the burst family with a seeded choice of (pool, concurrency) each, plus a sample
+    bkey = lambda x: (x["n"], len(x["phases"]), tuple((p["hold"], p["stall"], len(p["ups"])) for p in x["phases"]))
+    groups = {}
+    for x in burst:
+        groups.setdefault(bkey(x), []).append(x)
+    bpick = [x for k in sorted(groups) for x in rng.sample(groups[k], 2 if quick else len(groups[k]))]
+    for x in bpick:
+        ctx.distinct("burst|n=%d|pool=%d|par=%s|%s" % (x["n"], x["pool"], x["phases"][0]["par"], "/".join(
+            "%s%s" % (p["hold"] or "-", "+stall" if p["stall"] else "") for p in x["phases"])))
+    fams.append(("burst", bpick, "mem"))
+    if bsweep:
+        fams.append(("burst-sweep", bsweep, "mem"))
+    ctx.sample({"scenario": dict(bpick[0], phases=[dict(p, ups="1..%d" % len(p["ups"]) if len(p["ups"]) > 4 else p["ups"]) for p in bpick[0]["phases"]])})
     ctx.sample({"scenario": core[len(core) // 2]})
     ctx.sample({"scenario": sample[0]})
     nr = 300 if quick else 4000
+    nrb = 60 if quick else 1200
     fams.append(("random", None, "random"))
+    fams.append(("random-burst", None, "random"))
     runs = events = wakes = nseg = nfail = 0
-    first = None
+    first = firstb = None
     with ThreadPoolExecutor(max_workers=3) as spool, ThreadPoolExecutor(max_workers=8) as vpool:
         s_future = spool.submit(leg_s, ctx, quick)
         pending = []
         for name, scns, cfgs in fams:
-            if cfgs == "random":
+            isburst = name in ("burst", "burst-sweep", "random-burst")
+            if name == "random-burst":
+                evs, st = drive(ctx, drv, ["-random", str(nrb), "-burst", "-par", "10"], name)
+            elif cfgs == "random":
                 # ---- T: seeded random scenarios through the same validator
                 evs, st = drive(ctx, drv, ["-random", str(nr), "-par", "10"], name)
             else:
@@ -342,24 +463,32 @@ def run(ctx, replay):
             runs += st.get("runs", 0)
             events += len(evs)
             wakes += st.get("wakes", 0)
-            ctx.count("G" if scns is not None else "T", **{"scenarios:" + name: len(scns) if scns is not None else nr,
+            nsc = len(scns) if scns is not None else (nrb if isburst else nr)
+            ctx.count("G" if scns is not None else "T", **{"scenarios:" + name: nsc,
                                                           "runs:" + name: st.get("runs", 0), "expired_waits:" + name: st.get("expired", 0)})
             ctx.log("%s %s: %d scenarios -> %d runs, %d lines, %d wake-ups, %d bounded waits expired" % (
-                "T" if scns is None else "G", name, len(scns) if scns is not None else nr, st.get("runs", 0), len(evs),
+                "T" if scns is None else "G", name, nsc, st.get("runs", 0), len(evs),
                 st.get("wakes", 0), st.get("expired", 0)))
             if not evs:
                 continue
             if first is None:
                 first = evs
             # ---- validation (TLC is the oracle); the next family is driven while this one is validated
-            pending.append(spool.submit(validate, ctx, evs, "T" if scns is None else "G", vpool))
-            measure(ctx, evs)
+            if isburst:
+                pending.append(spool.submit(validate, ctx, evs, "T" if scns is None else "G", vpool, BURST_MODULE, BURST_CHUNK))
+                if name == "burst":
+                    firstb = evs
+            else:
+                pending.append(spool.submit(validate, ctx, evs, "T" if scns is None else "G", vpool))
+            measure(ctx, evs, burst=isburst)
         for f in pending:
             n, nf = f.result()
             nseg += n
             nfail += nf
         if first:
             negative_samples(ctx, first)
+        if firstb:
+            negative_burst(ctx, firstb)
         s_future.result()
     some = segments(first or [])
     if some:
@@ -374,7 +503,13 @@ def run(ctx, replay):
                        "incarnation, pool size, concurrent uploads, crash point = every lower-layer call k of a swept incarnation); the core "
                        "family (<= 2 uploads, <= 1 restart, <= 1 fault) and the no-fault family (all cuts, <= 2 restarts) are enumerated by TLC "
                        "and run exhaustively with every crash point, the larger families are sampled with the seed, plus seeded random "
-                       "scenarios; distinct = measured (configuration, crash position / fault outcome and what followed / race observed)")
+                       "scenarios; burst family = (n in 19/20/30/60/100 distinct blobs pending at once, form in failing / stalled pass / "
+                       "restart over n rows / restart with failing destination / restart of the stalled incarnation / half rows half "
+                       "uploads, pool 1/2/5, sequential or concurrent uploads), enumerated by TLC; quick runs every (n, form) with a "
+                       "seeded choice of two (pool, concurrency) each, thorough all of them with three hold outcomes and every crash "
+                       "point for n = 19, 20; plus seeded random members (n in 5..100, shuffled, cuts, crash points); distinct = "
+                       "measured (configuration, crash position / fault outcome and what followed / race observed / blobs pending "
+                       "at the heal or restart mark)")
     ctx.assumptions += [
         "gate stores / KVs are correct lower layers; a crash freezes every gate of the incarnation at one lower-layer call (a prefix of "
         "lower-layer calls is durable) and the restarted handler sees the same queue, source and destination backing",
@@ -387,6 +522,13 @@ def run(ctx, replay):
         "index configuration: the destination is a real index.Index behind the recording wrapper, so the handler's toIndex flag (used for "
         "discovery only) is false; delivered = its have-row says '<size>|indexed' after the out-of-order indexing drained; the rest of the "
         "four-blob world (key, permanode, two claims) is uploaded in the last incarnation so that every dependency can be resolved",
+        "burst family: 'pending at once' is arranged by the recording wrapper of the destination (every write fails until the heal "
+        "mark, or the first write of the incarnation does not return before the uploads have); an incarnation whose destination is down "
+        "or stalled and which is not the last one is killed as soon as its uploads returned; memory destination only; the largest burst "
+        "(100) is far below the handler's own batch limit of 1000, so the 'buffer full, will get it later' branch of runSync is covered "
+        "only by SyncPool.tla, not on the real code",
+        "SyncPool.tla: the order in which a pass feeds its batch does not starve a blob for ever (strong fairness of feeding b; Go map "
+        "iteration order), needed only when a batch exceeds the work channel",
         "a row written after its blob was already delivered (the copier may overtake queue.Set) stays until the next restart: Sync.tla "
         "models this and the property does not forbid it; fullSyncOnStart / validateOnStart / hourlyCompare are not exercised",
     ]
